@@ -5,25 +5,25 @@ package gomatrixserverlib
 // Contracts for gvc (comment-only; compiled only with -tags verif and then adds no code).
 
 //@ func (*PowerLevelContent).UserLevel
-//@   property C08, C07
+//@   property C08, C07, C18:safety
 //@   requires c != nil
 //@   ensures level: result == UL(*c, senderID)
 //@   assigns nothing
 
 //@ func (*PowerLevelContent).EventLevel
-//@   property C08, C07
+//@   property C08, C07, C18:safety
 //@   requires c != nil
 //@   ensures level: result == ELstate(*c, eventType, isState)
 //@   assigns nothing
 
 //@ func (*PowerLevelContent).NotificationLevel
-//@   property C08, C07
+//@   property C08, C07, C18:safety
 //@   requires c != nil
 //@   ensures level: result == NL(*c, notification)
 //@   assigns nothing
 
 //@ func checkEventLevels
-//@   property C08
+//@   property C08, C18:safety
 //@   ensures ban: err == nil ==> levelOK(senderLevel, oldPowerLevels.Ban, newPowerLevels.Ban)
 //@   ensures invite: err == nil ==> levelOK(senderLevel, oldPowerLevels.Invite, newPowerLevels.Invite)
 //@   ensures kick: err == nil ==> levelOK(senderLevel, oldPowerLevels.Kick, newPowerLevels.Kick)
@@ -43,7 +43,7 @@ package gomatrixserverlib
 //@   assigns nothing
 
 //@ func checkUserLevels
-//@   property C08
+//@   property C08, C18:safety
 //@   ensures users-new: err == nil ==> (forall u string :: u in newPowerLevels.Users ==> userOK(senderLevel, senderID, u, oldPowerLevels, newPowerLevels))
 //@   ensures users-old: err == nil ==> (forall u string :: u in oldPowerLevels.Users ==> userOK(senderLevel, senderID, u, oldPowerLevels, newPowerLevels))
 //@   ensures complete: (forall u string :: (u in newPowerLevels.Users || u in oldPowerLevels.Users) ==> userOK(senderLevel, senderID, u, oldPowerLevels, newPowerLevels)) ==> err == nil
@@ -56,12 +56,12 @@ package gomatrixserverlib
 //@   assigns nothing
 
 //@ func checkPowerLevelEventV1
-//@   property C08
+//@   property C08, C18:safety
 //@   ensures nil: err == nil
 //@   assigns nothing
 
 //@ func checkPowerLevelEventV2
-//@   property C08
+//@   property C08, C18:safety
 //@   ensures notifications-new: err == nil ==> (forall n string :: n in newPowerLevels.Notifications ==> levelOK(UL(oldPowerLevels, sender), NL(oldPowerLevels, n), NL(newPowerLevels, n)))
 //@   ensures notifications-old: err == nil ==> (forall n string :: n in oldPowerLevels.Notifications ==> levelOK(UL(oldPowerLevels, sender), NL(oldPowerLevels, n), NL(newPowerLevels, n)))
 //@   loop 1: invariant forall n string :: seen(1)[n] ==> hasPair(notificationLevelChecks, NL(oldPowerLevels, n), NL(newPowerLevels, n))
@@ -72,7 +72,7 @@ package gomatrixserverlib
 //@   assigns nothing
 
 //@ func checkPowerLevelEventV3
-//@   property C08
+//@   property C08, C18:safety
 //@   requires createEvent != nil
 //@   ensures notifications-new: err == nil ==> (forall n string :: n in newPowerLevels.Notifications ==> levelOK(UL(oldPowerLevels, sender), NL(oldPowerLevels, n), NL(newPowerLevels, n)))
 //@   ensures notifications-old: err == nil ==> (forall n string :: n in oldPowerLevels.Notifications ==> levelOK(UL(oldPowerLevels, sender), NL(oldPowerLevels, n), NL(newPowerLevels, n)))
@@ -88,52 +88,52 @@ package gomatrixserverlib
 //@   assigns nothing
 
 //@ func (*allowerContext).userPowerLevel
-//@   property C07
+//@   property C07, C18:safety
 //@   requires a != nil && (a.powerLevelsEvent == nil ==> a.createEvent != nil)
 //@   ensures level: result == effLevel(*a, userID)
 //@   assigns nothing
 
 //@ func (*membershipAllower).membershipFailed
-//@   property C07
+//@   property C07, C18:safety
 //@   requires m != nil && m.allowerContext != nil
 //@   ensures result != nil
 //@   assigns nothing
 
 //@ func checkKnocking
-//@   property C07
+//@   property C07, C18:safety
 //@   ensures iff: (err == nil) <==> knockSpec(joinRule, prevMembership)
 //@   assigns nothing
 
 //@ func disallowKnocking
-//@   property C07
+//@   property C07, C18:safety
 //@   ensures never: err != nil
 //@   assigns nothing
 
 //@ func allowRestrictedJoins
-//@   property C07
+//@   property C07, C18:safety
 //@   ensures always: err == nil
 //@   assigns nothing
 
 //@ func disallowRestrictedJoins
-//@   property C07
+//@   property C07, C18:safety
 //@   ensures never: err != nil
 //@   assigns nothing
 
 //@ func (*membershipAllower).membershipAllowedOther
-//@   property C07
+//@   property C07, C18:safety
 //@   requires m != nil && m.allowerContext != nil && (m.powerLevelsEvent == nil ==> m.createEvent != nil)
 //@   ensures iff: (err == nil) <==> otherSpec(m.senderMember.Membership, m.newMember.Membership, m.oldMember.Membership, effLevel(*m.allowerContext, m.senderID), effLevel(*m.allowerContext, m.targetID), m.powerLevels.Ban, m.powerLevels.Kick, m.powerLevels.Invite)
 //@   assigns nothing
 
 //@ func SplitID
 //@   requires sigil != 58
-//@   property C17
+//@   property C17, C18:safety
 //@   ensures iff: (err == nil) <==> (len(id) > 0 && id[0] == sigil && indexByte(id, ':') >= 0)
 //@   ensures parts: err == nil ==> (local == substr(id, 1, indexByte(id, ':')) && domain == substr(id, indexByte(id, ':') + 1, len(id)))
 //@   assigns nothing
 
 //@ func (*membershipAllower).membershipAllowedSelfForRestrictedJoin
-//@   property C07
+//@   property C07, C18:safety
 //@   frameprop C09
 //@   requires m != nil && m.allowerContext != nil && (m.powerLevelsEvent == nil ==> m.createEvent != nil) && m.roomVersionImpl != nil && m.provider != nil
 //@   ensures iff: (err == nil) <==> restrictedJoinSpec(*m)
@@ -141,7 +141,7 @@ package gomatrixserverlib
 //@   assigns nothing
 
 //@ func (*membershipAllower).membershipAllowedSelf
-//@   property C07
+//@   property C07, C18:safety
 //@   frameprop C09
 //@   requires m != nil && m.allowerContext != nil && (m.powerLevelsEvent == nil ==> m.createEvent != nil) && m.roomVersionImpl != nil && m.provider != nil
 //@   ensures iff: (err == nil) <==> selfSpec(*m)
@@ -150,7 +150,7 @@ package gomatrixserverlib
 // vjOK(name, key ID, public key, message) is by definition "VerifyJSON accepts"; what VerifyJSON
 // checks is proved below (C02).
 //@ func VerifyJSON
-//@   property C02
+//@   property C02, C18:safety
 //@   results err
 //@   defines abstract: (err == nil) <==> vjOK(signingName, keyID, str(publicKey), str(message))
 //@   ensures accepts-only-after-verify: err == nil ==> (called(Verify) && ret(Verify))
@@ -161,7 +161,7 @@ package gomatrixserverlib
 //@   assigns nothing
 
 //@ func (*membershipAllower).membershipAllowedFromThirdPartyInvite
-//@   property C07
+//@   property C07, C18:safety
 //@   frameprop C09
 //@   requires m != nil && m.allowerContext != nil && m.newMember.ThirdPartyInvite != nil
 //@   ensures mxid: err == nil ==> m.targetID == m.newMember.ThirdPartyInvite.Signed.MXID
@@ -173,26 +173,26 @@ package gomatrixserverlib
 //@   assigns nothing
 
 //@ func (*CreateContent).DomainAllowed
-//@   property C07
+//@   property C07, C18:safety
 //@   requires c != nil
 //@   ensures iff: (err == nil) <==> domainAllowedSpec(*c, domain)
 //@   assigns nothing
 
 //@ func (*CreateContent).UserIDAllowed
-//@   property C07
+//@   property C07, C18:safety
 //@   requires c != nil
 //@   ensures iff: (err == nil) <==> domainAllowedSpec(*c, id.domain)
 //@   assigns nothing
 
 //@ func (*eventAllower).commonChecks
-//@   property C07
+//@   property C07, C18:safety
 //@   frameprop C09
 //@   requires e != nil && e.allowerContext != nil && ctxSafe(*e.allowerContext) && evSafe(event)
 //@   ensures iff: (err == nil) <==> commonSpec(*e, event)
 //@   assigns nothing
 
 //@ func NewMemberContentFromEvent
-//@   property C07
+//@   property C07, C18:safety
 //@   requires event != nil
 //@   ensures parses: (err == nil) <==> memberParses(event)
 //@   ensures membership: err == nil ==> c.Membership == evMembership(event)
@@ -202,7 +202,7 @@ package gomatrixserverlib
 //@   assigns nothing
 
 //@ func NewMemberContentFromAuthEvents
-//@   property C07
+//@   property C07, C18:safety
 //@   requires authEvents != nil
 //@   ensures error: (err != nil) <==> stMemberErr(authEvents, senderID)
 //@   ensures membership: err == nil ==> c.Membership == stMembership(authEvents, senderID)
@@ -212,7 +212,7 @@ package gomatrixserverlib
 //@   assigns nothing
 
 //@ func (*allowerContext).newEventAllower
-//@   property C07
+//@   property C07, C18:safety
 //@   requires a != nil && a.provider != nil
 //@   ensures context: e.allowerContext == a
 //@   ensures error: (err != nil) <==> stMemberErr(a.provider, senderID)
@@ -220,7 +220,7 @@ package gomatrixserverlib
 //@   assigns nothing
 
 //@ func (*allowerContext).defaultEventAllowed
-//@   property C07
+//@   property C07, C18:safety
 //@   frameprop C09
 //@   requires a != nil && ctxSafe(*a) && evSafe(event)
 //@   ensures iff: (err == nil) <==> (!stMemberErr(a.provider, event.SenderID()) && defaultSpec(*a, event))
@@ -245,7 +245,7 @@ package gomatrixserverlib
 //@   assigns nothing
 
 //@ func (*membershipAllower).membershipAllowed
-//@   property C07
+//@   property C07, C18:safety
 //@   frameprop C09
 //@   requires m != nil && m.allowerContext != nil && ctxSafe(*m.allowerContext) && evSafe(event) && m.roomVersionImpl != nil
 //@   ensures same-room: err == nil ==> m.create.roomID == event.RoomID().String()
@@ -254,26 +254,26 @@ package gomatrixserverlib
 //@   assigns nothing
 
 //@ func domainFromID
-//@   property C07
+//@   property C07, C18:safety
 //@   ensures iff: (err == nil) <==> indexByte(id, ':') >= 0
 //@   ensures domain: err == nil ==> result[0] == substr(id, indexByte(id, ':') + 1, len(id))
 //@   assigns nothing
 
 //@ func checkCreateEventV2
-//@   property C07
+//@   property C07, C18:safety
 //@   requires event != nil && !event.RoomID().isDomainless
 //@   ensures iff: (err == nil) <==> createSpecV2(event, sender.domain)
 //@   assigns nothing
 
 //@ func (*allowerContext).aliasEventAllowed
-//@   property C07
+//@   property C07, C18:safety
 //@   frameprop C09
 //@   requires a != nil && ctxSafe(*a) && evSafe(event)
 //@   ensures iff: (err == nil) <==> aliasSpec(*a, event)
 //@   assigns nothing
 
 //@ func (*allowerContext).redactEventAllowed
-//@   property C07
+//@   property C07, C18:safety
 //@   frameprop C09
 //@   requires a != nil && ctxSafe(*a) && evSafe(event)
 //@   ensures iff: (err == nil) <==> (!stMemberErr(a.provider, event.SenderID()) && redactSpec(*a, event))
@@ -287,14 +287,14 @@ package gomatrixserverlib
 //@   assigns nothing
 
 //@ func (*PowerLevelContent).Defaults
-//@   property C07
+//@   property C07, C18:safety
 //@   requires c != nil
 //@   ensures defaults: c.Invite == 0 && c.Ban == 50 && c.Kick == 50 && c.Redact == 50 && c.UsersDefault == 0 && c.EventsDefault == 0 && c.StateDefault == 50 && NL(*c, "room") == 50
 //@   ensures others: c.Users == old(c.Users) && c.Events == old(c.Events)
 //@   assigns *c
 
 //@ func NewPowerLevelContentFromAuthEvents
-//@   property C07
+//@   property C07, C18:safety
 //@   requires authEvents != nil
 //@   ensures error: (err != nil) <==> (authEvents.PowerLevels()[1] != nil || (authEvents.PowerLevels()[0] != nil && !plParses(ref(authEvents.PowerLevels()[0]))))
 //@   ensures present: (err == nil && authEvents.PowerLevels()[0] != nil) ==> c == plContent(authEvents.PowerLevels()[0])
@@ -303,27 +303,27 @@ package gomatrixserverlib
 //@   calls PowerLevels C09.footprint-power-levels: true
 
 //@ func NewJoinRuleContentFromAuthEvents
-//@   property C07
+//@   property C07, C18:safety
 //@   requires authEvents != nil
 //@   ensures error: (err != nil) <==> jrErr(authEvents)
 //@   ensures rule: err == nil ==> c.JoinRule == jrRule(authEvents)
 //@   assigns nothing
 
 //@ func NewCreateContentFromAuthEvents
-//@   property C07
+//@   property C07, C18:safety
 //@   requires authEvents != nil && userIDForSender != nil
 //@   ensures error: (err != nil) <==> createErr(authEvents, userIDForSender)
 //@   ensures content: err == nil ==> ccMatches(c, authEvents.Create()[0], userIDForSender)
 //@   assigns nothing
 
 //@ func CreatorsFromCreateEvent
-//@   property C07
+//@   property C07, C18:safety
 //@   requires createEvent != nil && createParses(createEvent)
 //@   ensures creators: creatorsMatch(creators, createEvent)
 //@   assigns nothing
 
 //@ func (*allowerContext).update
-//@   property C09
+//@   property C09, C18:safety
 //@   requires a != nil && provider != nil && a.userIDQuerier != nil && ctxWF(*a) && providerLaw(provider)
 //@   requires !createErr(provider, a.userIDQuerier) ==> verKnown(string(provider.Create()[0].Version()))
 //@   ensures provider: a.provider == provider && a.userIDQuerier == old(a.userIDQuerier) && a.roomID == old(a.roomID)
@@ -337,7 +337,7 @@ package gomatrixserverlib
 //@   assigns a.provider, a.createEvent, a.powerLevelsEvent, a.joinRuleEvent, a.create, a.creators, a.privilegedCreators, a.powerLevels, a.joinRule
 
 //@ func newAllowerContext
-//@   property C09
+//@   property C09, C18:safety
 //@   requires provider != nil && userIDQuerier != nil && providerLaw(provider) && providerVersionsKnown(provider, userIDQuerier)
 //@   ensures fresh: result != nil && fresh(result)
 //@   ensures fields: result.userIDQuerier == userIDQuerier && result.roomID == roomID
@@ -345,7 +345,7 @@ package gomatrixserverlib
 //@   ensures loaded: ctxLoaded(*result, provider)
 
 //@ func (*allowerContext).allowed
-//@   property C07
+//@   property C07, C18:safety
 //@   frameprop C09
 //@   requires a != nil && ctxSafe(*a) && evSafe(event)
 //@   ensures create: event.Type() == "m.room.create" ==> (called(createEventAllowed) && err == ret(createEventAllowed))
@@ -362,7 +362,7 @@ package gomatrixserverlib
 //@   calls defaultEventAllowed same-event: event == old(event)
 
 //@ func NewThirdPartyInviteContentFromAuthEvents
-//@   property C07
+//@   property C07, C18:safety
 //@   requires authEvents != nil
 //@   ensures error: (err != nil) <==> tpiErr(authEvents, token)
 //@   ensures content: err == nil ==> t == jdecoded(ThirdPartyInviteContent, authEvents.ThirdPartyInvite(token)[0].Content())
@@ -370,7 +370,7 @@ package gomatrixserverlib
 //@   assigns nothing
 
 //@ func (*allowerContext).newMembershipAllower
-//@   property C07
+//@   property C07, C18:safety
 //@   requires a != nil && authEvents != nil && event != nil
 //@   ensures error: (err != nil) <==> (!verKnown(string(event.Version())) || event.StateKey() == nil || !memberParses(event) || stMemberErr(authEvents, *event.StateKey()) || stMemberErr(authEvents, event.SenderID()) || (evThirdPartyInvite(event) != nil && tpiErr(authEvents, evThirdPartyInvite(event).Signed.Token)))
 //@   ensures context: err == nil ==> (m.allowerContext == a && m.roomVersionImpl != nil && ref(m.roomVersionImpl) == verImplRef(string(event.Version())))
@@ -384,7 +384,7 @@ package gomatrixserverlib
 //@   assigns nothing
 
 //@ func (*allowerContext).memberEventAllowed
-//@   property C07
+//@   property C07, C18:safety
 //@   frameprop C09
 //@   requires a != nil && ctxSafe(*a) && evSafe(event)
 //@   ensures loaded: err == nil ==> (called(newMembershipAllower) && ret(newMembershipAllower, 1) == nil && called(membershipAllowed) && ret(membershipAllowed) == nil)
@@ -394,7 +394,7 @@ package gomatrixserverlib
 //@   assigns nothing
 
 //@ func (*allowerContext).createEventAllowed
-//@   property C07
+//@   property C07, C18:safety
 //@   frameprop C09
 //@   requires a != nil && a.userIDQuerier != nil && evSafe(event)
 //@   ensures state-key: err == nil ==> event.StateKeyEquals("")
@@ -406,7 +406,7 @@ package gomatrixserverlib
 //@   assigns nothing
 
 //@ func Allowed
-//@   property C07
+//@   property C07, C18:safety
 //@   requires authEvents != nil && userIDQuerier != nil && evSafe(event) && providerLaw(authEvents) && providerVersionsKnown(authEvents, userIDQuerier)
 //@   ensures mixed-rooms: !authEvents.Valid() ==> err != nil
 //@   ensures verdict: authEvents.Valid() ==> (called(allowed) && err == ret(allowed))
@@ -416,14 +416,14 @@ package gomatrixserverlib
 // ---------------------------------------------------------------- C09: needed state
 
 //@ func thirdPartyInviteToken
-//@   property C09
+//@   property C09, C18:safety
 //@   requires thirdPartyInvite != nil
 //@   ensures iff: (err == nil) <==> thirdPartyInvite.Signed.Token != ""
 //@   ensures token: err == nil ==> result[0] == thirdPartyInvite.Signed.Token
 //@   assigns nothing
 
 //@ func accumulateStateNeeded
-//@   property C09
+//@   property C09, C18:safety
 //@   requires result != nil
 //@   ensures member-needs: (err == nil && eventType == "m.room.member") ==> (result.Create && result.PowerLevels && inStrs(result.Member, string(sender)) && (stateKey != nil ==> inStrs(result.Member, *stateKey)) && ((content.Membership == "join" || content.Membership == "knock" || content.Membership == "invite") ==> result.JoinRules) && (content.ThirdPartyInvite != nil ==> inStrs(result.ThirdPartyInvite, content.ThirdPartyInvite.Signed.Token)) && (content.AuthorizedVia != "" ==> inStrs(result.Member, content.AuthorizedVia)))
 //@   ensures alias-needs: eventType == "m.room.aliases" ==> result.Create
@@ -1214,49 +1214,49 @@ package gomatrixserverlib
 //@   ensures C05.content.V5.redaction.keeps.redacts: kept(unredactableContentFieldsV5, "m.room.redaction", "redacts")
 
 //@ func (RoomVersionImpl).PrivilegedCreators
-//@   property C17
+//@   property C17, C18:safety
 //@   ensures field: result == v.privilegedCreators
 //@   assigns nothing
 
 //@ func (RoomVersionImpl).DomainlessRoomIDs
-//@   property C17
+//@   property C17, C18:safety
 //@   ensures field: result == v.domainlessRoomID
 //@   assigns nothing
 
 //@ func (RoomVersionImpl).Version
-//@   property C17
+//@   property C17, C18:safety
 //@   ensures field: result == v.ver
 //@   assigns nothing
 
 //@ func (RoomVersionImpl).StateResAlgorithm
-//@   property C17
+//@   property C17, C18:safety
 //@   ensures field: result == v.stateResAlgorithm
 //@   assigns nothing
 
 //@ func (RoomVersionImpl).EventFormat
-//@   property C17
+//@   property C17, C18:safety
 //@   ensures field: result == v.eventFormat
 //@   assigns nothing
 
 //@ func (RoomVersionImpl).EventIDFormat
-//@   property C17
+//@   property C17, C18:safety
 //@   ensures field: result == v.eventIDFormat
 //@   assigns nothing
 
 //@ func (RoomVersionImpl).Stable
-//@   property C17
+//@   property C17, C18:safety
 //@   ensures field: result == v.stable
 //@   assigns nothing
 
 //@ func checkID
-//@   property C17
+//@   property C17, C18:safety
 //@   ensures ok: (err == nil) <==> (indexByte(id, ':') >= 0 && id[0] == sigil && runeCount(id) <= 255 && len(id) <= 255)
 //@   ensures code-points: (indexByte(id, ':') >= 0 && id[0] == sigil && runeCount(id) > 255) ==> tooLargeHard(err)
 //@   ensures bytes: (indexByte(id, ':') >= 0 && id[0] == sigil && runeCount(id) <= 255 && len(id) > 255) ==> tooLargeLenient(err, true)
 //@   assigns nothing
 
 //@ func CheckFields
-//@   property C17
+//@   property C17, C18:safety
 //@   requires input != nil
 //@   ensures json-size: (input.AuthEventIDs() != nil && input.PrevEventIDs() != nil && len(input.JSON()) > 65536) ==> tooLargeHard(err)
 //@   ensures type-code-points: err == nil ==> runeCount(input.Type()) <= 255
@@ -1272,28 +1272,28 @@ package gomatrixserverlib
 // ---------------------------------------------------------------- C06 / C12: key validity and the key ring
 
 //@ func StrictValiditySignatureCheck
-//@   property C12, C06
+//@   property C12, C06, C18:safety
 //@   ensures rule: result <==> strictValidSpec(atTs, validUntil)
 //@   assigns nothing
 
 //@ func NoStrictValidityCheck
-//@   property C12, C06
+//@   property C12, C06, C18:safety
 //@   ensures always: result
 //@   assigns nothing
 
 //@ func (PublicKeyLookupResult).WasValidAt
-//@   property C12, C06
+//@   property C12, C06, C18:safety
 //@   requires signatureValidityCheck != nil
 //@   ensures rule: result == wasValidAtSpec(r, atTs, signatureValidityCheck)
 //@   assigns nothing
 
 //@ func (*KeyRing).isAlgorithmSupported
-//@   property C12
+//@   property C12, C18:safety
 //@   ensures ed25519: result <==> hasPrefix(keyID, "ed25519:")
 //@   assigns nothing
 
 //@ func (*KeyRing).checkUsingKeys
-//@   property C12
+//@   property C12, C18:safety
 //@   requires len(results) == len(requests) && len(keyIDs) == len(requests)
 //@   requires forall a int :: 0 <= a && a < len(requests) ==> requests[a].ValidityCheckingFunc != nil
 //@   ensures accepted-by-key: forall a int :: 0 <= a && a < len(requests) ==> ((results[a].Error == nil) <==> (old(results[a].Error) == nil || someKeyAccepts(requests[a], keyIDs[a], keys)))
@@ -1307,7 +1307,7 @@ package gomatrixserverlib
 //@   loop 2: invariant forall a int :: i < a && a < len(requests) ==> results[a].Error == old(results[a].Error)
 
 //@ func ListKeyIDs
-//@   property C02, C12
+//@   property C02, C12, C18:safety
 //@   ensures error: (err != nil) <==> !jok("struct{Signatures map[string]map[KeyID]json.RawMessage `json:\"signatures\"`}", message)
 //@   ensures keys: err == nil ==> (forall j int :: 0 <= j && j < len(result[0]) ==> result[0][j] in sigsOf(message)[signingName])
 //@   ensures complete: err == nil ==> (forall k string :: k in sigsOf(message)[signingName] ==> (exists j int :: 0 <= j && j < len(result[0]) && result[0][j] == k))
@@ -1316,7 +1316,7 @@ package gomatrixserverlib
 //@   assigns nothing
 
 //@ func (KeyRing).VerifyJSONs
-//@   property C12
+//@   property C12, C18:safety
 //@   requires k.KeyDatabase != nil
 //@   requires forall a int :: 0 <= a && a < len(requests) ==> requests[a].ValidityCheckingFunc != nil
 //@   requires forall f int :: 0 <= f && f < len(k.KeyFetchers) ==> k.KeyFetchers[f] != nil
@@ -1334,7 +1334,7 @@ package gomatrixserverlib
 //@   loop 5: invariant 0 <= idx(5) && idx(5) <= len(k.KeyFetchers)
 
 //@ func (*KeyRing).publicKeyRequests
-//@   property C12
+//@   property C12, C18:safety
 //@   requires len(results) == len(requests) && len(keyIDs) == len(requests)
 //@   ensures map: result != nil
 //@   ensures only-unresolved: forall s string, k string :: tuple(s, k) in result ==> keyWanted(requests, results, keyIDs, s, k, len(requests))
@@ -1345,7 +1345,7 @@ package gomatrixserverlib
 //@   assigns nothing
 
 //@ func checkVerifyKeys
-//@   property C12
+//@   property C12, C18:safety
 //@   requires checks != nil && !checks.HasEd25519Key
 //@   ensures all-ok: checks.AllChecksOK <==> (old(checks.AllChecksOK) && (exists k string :: k in keys.VerifyKeys && isEd25519ID(k)) && (forall k string :: (k in keys.VerifyKeys && isEd25519ID(k)) ==> goodVerifyKey(keys, k)))
 //@   ensures returned-keys: forall k string :: k in result ==> (k in keys.VerifyKeys && isEd25519ID(k) && goodVerifyKey(keys, k) && result[k] == get(keys.VerifyKeys, k).Key)
@@ -1357,7 +1357,7 @@ package gomatrixserverlib
 //@   assigns *checks
 
 //@ func CheckKeys
-//@   property C12
+//@   property C12, C18:safety
 //@   ensures name: checks.MatchingServerName <==> serverName == keys.ServerName
 //@   ensures future: keys.ValidUntilTS <= 9223372036854775807 ==> (checks.FutureValidUntilTS <==> keys.ValidUntilTS * 1000000 > unixNano(now))
 //@   ensures all-ok: checks.AllChecksOK <==> (checks.MatchingServerName && checks.FutureValidUntilTS && (exists k string :: k in keys.VerifyKeys && isEd25519ID(k)) && (forall k string :: (k in keys.VerifyKeys && isEd25519ID(k)) ==> goodVerifyKey(keys, k)))
@@ -1365,7 +1365,7 @@ package gomatrixserverlib
 //@   ensures returned-keys: forall k string :: k in ed25519Keys ==> (k in keys.VerifyKeys && isEd25519ID(k) && goodVerifyKey(keys, k))
 
 //@ func (*DirectKeyFetcher).fetchKeysForServer
-//@   property C12
+//@   property C12, C18:safety
 //@   requires d != nil && d.Client != nil
 //@   ensures checked: err == nil ==> (called(CheckKeys) && ret(CheckKeys, 0).AllChecksOK)
 //@   calls CheckKeys response-of-that-server: serverName == old(serverName) && keys == ret(GetServerKeys, 0)
@@ -1373,7 +1373,7 @@ package gomatrixserverlib
 //@   calls mapServerKeysToPublicKeyLookupResult checked-response: serverKeys == ret(GetServerKeys, 0)
 
 //@ func (*DirectKeyFetcher).fetchNotaryKeysForServer
-//@   property C12
+//@   property C12, C18:safety
 //@   requires d != nil && d.Client != nil
 //@   ensures checked: err == nil ==> (called(CheckKeys) && ret(CheckKeys, 0).AllChecksOK)
 //@   calls CheckKeys response-names-server: serverName == old(serverName) && keys.ServerName == old(serverName)
@@ -1381,7 +1381,7 @@ package gomatrixserverlib
 //@   loop 1: invariant 0 <= idx(1) && idx(1) <= len(allKeys)
 
 //@ func (*PerspectiveKeyFetcher).FetchKeys
-//@   property C12
+//@   property C12, C18:safety
 //@   requires p != nil && p.Client != nil
 //@   calls mapServerKeysToPublicKeyLookupResult notary-signed: exists k string :: k in p.PerspectiveServerKeys && vjOK(string(p.PerspectiveServerName), k, str(p.PerspectiveServerKeys[k]), str(serverKeys.Raw))
 //@   calls mapServerKeysToPublicKeyLookupResult self-signed: called(CheckKeys) && ret(CheckKeys, 0).AllChecksOK
@@ -1393,7 +1393,7 @@ package gomatrixserverlib
 // ---------------------------------------------------------------- C06: required signers
 
 //@ func VerifyEventSignatures
-//@   property C06
+//@   property C06, C18:safety
 //@   requires e != nil && verifier != nil && userIDForSender != nil
 //@   ensures verified: err == nil ==> (called(VerifyJSONs) && ret(VerifyJSONs, 1) == nil && (forall i int :: 0 <= i && i < len(ret(VerifyJSONs, 0)) ==> ret(VerifyJSONs, 0)[i].Error == nil))
 //@   calls VerifyJSONs@root every-required-signer: forall s string :: signerNeeded(e, ret(GetRoomVersion, 0), userIDForSender, s) ==> (exists i int :: 0 <= i && i < len(requests) && string(requests[i].ServerName) == s)
@@ -1406,7 +1406,7 @@ package gomatrixserverlib
 //@   loop 2: invariant 0 <= idx(2) && idx(2) <= len(results) && (forall i int :: 0 <= i && i < idx(2) ==> results[i].Error == nil)
 
 //@ func validateMXIDMappingSignatures
-//@   property C06
+//@   property C06, C18:safety
 //@   requires e != nil && verifier != nil && verImpl != nil
 //@   ensures verified: err == nil ==> (called(VerifyJSONs) && ret(VerifyJSONs, 1) == nil && (forall i int :: 0 <= i && i < len(ret(VerifyJSONs, 0)) ==> ret(VerifyJSONs, 0)[i].Error == nil))
 //@   calls VerifyJSONs every-mapping-signer: forall s string :: s in mapping.Signatures ==> (exists i int :: 0 <= i && i < len(requests) && string(requests[i].ServerName) == s)
@@ -1419,7 +1419,7 @@ package gomatrixserverlib
 //@   assigns nothing
 
 //@ func SignJSON
-//@   property C02
+//@   property C02, C18:safety
 //@   calls Sign@root signs-canonical-form-without-signatures-and-unsigned: str(privateKey) == str(root_privateKey) && str(message) == canonicalOf(sjdel(sjdel(old(str(root_message)), "signatures"), "unsigned"))
 //@   calls Marshal@root earlier-signatures-kept: forall n string, k string :: (n in v.("map[string]map[KeyID]spec.Base64Bytes") && k in get(v.("map[string]map[KeyID]spec.Base64Bytes"), n)) <==> ((jhas(old(str(root_message)), "signatures") && after(Unmarshal, n in jfield(old(str(root_message)), "signatures", "map[string]map[KeyID]spec.Base64Bytes") && k in get(jfield(old(str(root_message)), "signatures", "map[string]map[KeyID]spec.Base64Bytes"), n))) || (n == root_signingName && k == root_keyID))
 //@   calls Marshal@root earlier-signatures-unchanged: forall n string, k string :: ((jhas(old(str(root_message)), "signatures") && after(Unmarshal, n in jfield(old(str(root_message)), "signatures", "map[string]map[KeyID]spec.Base64Bytes") && k in get(jfield(old(str(root_message)), "signatures", "map[string]map[KeyID]spec.Base64Bytes"), n))) && !(n == root_signingName && k == root_keyID)) ==> get(get(v.("map[string]map[KeyID]spec.Base64Bytes"), n), k) == after(Unmarshal, get(get(jfield(old(str(root_message)), "signatures", "map[string]map[KeyID]spec.Base64Bytes"), n), k))
@@ -1429,7 +1429,7 @@ package gomatrixserverlib
 // ---------------------------------------------------------------- C05: redaction
 
 //@ func redactEventJSON
-//@   property C05
+//@   property C05, C18:safety
 //@   requires unredactableEvent != nil
 //@   ensures malformed: !jokAs(old(*unredactableEvent), eventJSON) ==> err != nil
 //@   calls Marshal top-level-keys: setfield(*unredactableEvent, "Content", nil) == setfield(jmerge(old(*unredactableEvent), eventJSON), "Content", nil)
@@ -1441,41 +1441,41 @@ package gomatrixserverlib
 
 // redaction algorithm of room versions 1-5
 //@ func redactEventJSONV1
-//@   property C05
+//@   property C05, C18:safety
 //@   calls redactEventJSON[*unredactableEventFieldsV1] algorithm: eventTypeToKeepContentFields == unredactableContentFieldsV1 && unredactableEvent != nil && *unredactableEvent == zero("unredactableEventFieldsV1") && eventJSON == root_eventJSON
 //@   ensures delegated: called("redactEventJSON[*unredactableEventFieldsV1]") && result[0] == ret("redactEventJSON[*unredactableEventFieldsV1]", 0) && result[1] == ret("redactEventJSON[*unredactableEventFieldsV1]", 1)
 //@   ensures top-level-keys: jsonKeys("unredactableEventFieldsV1") == "auth_events,content,depth,event_id,hashes,membership,origin,origin_server_ts,prev_events,prev_state,room_id,sender,signatures,state_key,type"
 
 // redaction algorithm of room versions 6, 7
 //@ func redactEventJSONV2
-//@   property C05
+//@   property C05, C18:safety
 //@   calls redactEventJSON[*unredactableEventFieldsV1] algorithm: eventTypeToKeepContentFields == unredactableContentFieldsV2 && unredactableEvent != nil && *unredactableEvent == zero("unredactableEventFieldsV1") && eventJSON == root_eventJSON
 //@   ensures delegated: called("redactEventJSON[*unredactableEventFieldsV1]") && result[0] == ret("redactEventJSON[*unredactableEventFieldsV1]", 0) && result[1] == ret("redactEventJSON[*unredactableEventFieldsV1]", 1)
 //@   ensures top-level-keys: jsonKeys("unredactableEventFieldsV1") == "auth_events,content,depth,event_id,hashes,membership,origin,origin_server_ts,prev_events,prev_state,room_id,sender,signatures,state_key,type"
 
 // redaction algorithm of room versions 8
 //@ func redactEventJSONV3
-//@   property C05
+//@   property C05, C18:safety
 //@   calls redactEventJSON[*unredactableEventFieldsV1] algorithm: eventTypeToKeepContentFields == unredactableContentFieldsV3 && unredactableEvent != nil && *unredactableEvent == zero("unredactableEventFieldsV1") && eventJSON == root_eventJSON
 //@   ensures delegated: called("redactEventJSON[*unredactableEventFieldsV1]") && result[0] == ret("redactEventJSON[*unredactableEventFieldsV1]", 0) && result[1] == ret("redactEventJSON[*unredactableEventFieldsV1]", 1)
 //@   ensures top-level-keys: jsonKeys("unredactableEventFieldsV1") == "auth_events,content,depth,event_id,hashes,membership,origin,origin_server_ts,prev_events,prev_state,room_id,sender,signatures,state_key,type"
 
 // redaction algorithm of room versions 9, 10
 //@ func redactEventJSONV4
-//@   property C05
+//@   property C05, C18:safety
 //@   calls redactEventJSON[*unredactableEventFieldsV1] algorithm: eventTypeToKeepContentFields == unredactableContentFieldsV4 && unredactableEvent != nil && *unredactableEvent == zero("unredactableEventFieldsV1") && eventJSON == root_eventJSON
 //@   ensures delegated: called("redactEventJSON[*unredactableEventFieldsV1]") && result[0] == ret("redactEventJSON[*unredactableEventFieldsV1]", 0) && result[1] == ret("redactEventJSON[*unredactableEventFieldsV1]", 1)
 //@   ensures top-level-keys: jsonKeys("unredactableEventFieldsV1") == "auth_events,content,depth,event_id,hashes,membership,origin,origin_server_ts,prev_events,prev_state,room_id,sender,signatures,state_key,type"
 
 // redaction algorithm of room versions 11, 12
 //@ func redactEventJSONV5
-//@   property C05
+//@   property C05, C18:safety
 //@   calls redactEventJSON[*unredactableEventFieldsV2] algorithm: eventTypeToKeepContentFields == unredactableContentFieldsV5 && unredactableEvent != nil && *unredactableEvent == zero("unredactableEventFieldsV2") && eventJSON == root_eventJSON
 //@   ensures delegated: called("redactEventJSON[*unredactableEventFieldsV2]") && result[0] == ret("redactEventJSON[*unredactableEventFieldsV2]", 0) && result[1] == ret("redactEventJSON[*unredactableEventFieldsV2]", 1)
 //@   ensures top-level-keys: jsonKeys("unredactableEventFieldsV2") == "auth_events,content,depth,event_id,hashes,origin_server_ts,prev_events,room_id,sender,signatures,state_key,type"
 
 //@ func (RoomVersionImpl).RedactEventJSON
-//@   property C05
+//@   property C05, C18:safety
 //@   requires v.redactionAlgorithm != nil
 //@   purecallbacks
 //@   ensures delegates-to-table-entry: result == v.redactionAlgorithm(eventJSON)
@@ -1487,7 +1487,7 @@ package gomatrixserverlib
 //@   assigns nothing
 
 //@ func (*eventV1).Redact
-//@   property C05
+//@   property C05, C18:safety
 //@   requires e != nil
 //@   panics when !old(e.redacted)
 //@   ensures idempotent: old(e.redacted) ==> *e == old(*e)
@@ -1497,7 +1497,7 @@ package gomatrixserverlib
 //@   calls EnforcedCanonicalJSON@root of-redacted-json: input == ret(RedactEventJSON, 0) && roomVersion == old(e.roomVersion)
 
 //@ func (*eventV2).Redact
-//@   property C05
+//@   property C05, C18:safety
 //@   requires e != nil
 //@   panics when !old(e.redacted)
 //@   ensures idempotent: old(e.redacted) ==> *e == old(*e)
@@ -1520,7 +1520,8 @@ package gomatrixserverlib
 //@   assigns nothing
 
 //@ func newEventFromUntrustedJSONV1
-//@   property C04
+//@   property C04, C18:safety
+//@   ensures C18.room-id-parses: (err == nil && !called(NewEventFromTrustedJSON)) ==> (roomParses(ev.(*eventV1).eventFields.RoomID) && len(ev.(*eventV1).eventFields.RoomID) >= 4)
 //@   results ev, err
 //@   requires roomVersion != nil
 //@   loop 1: invariant 0 <= idx(1) && idx(1) <= 4 && str(eventJSON) == stripN(old(str(eventJSON)), idx(1))
@@ -1534,7 +1535,8 @@ package gomatrixserverlib
 //@   ensures C17.limits-enforced-on-receipt: err == nil ==> (called(CheckFields) && ret(CheckFields) == nil && arg(CheckFields, 0) == ev)
 
 //@ func newEventFromUntrustedJSONV2
-//@   property C04
+//@   property C04, C18:safety
+//@   ensures C18.room-id-parses: (err == nil && !called(NewEventFromTrustedJSON)) ==> (roomParses(ev.(*eventV2).eventFields.RoomID) && len(ev.(*eventV2).eventFields.RoomID) >= 4)
 //@   results ev, err
 //@   requires roomVersion != nil
 //@   loop 1: invariant 0 <= idx(1) && idx(1) <= 5 && str(eventJSON) == stripN(old(str(eventJSON)), idx(1))
@@ -1548,7 +1550,8 @@ package gomatrixserverlib
 //@   ensures C17.limits-enforced-on-receipt: err == nil ==> (called(CheckFields) && ret(CheckFields) == nil && arg(CheckFields, 0) == ev)
 
 //@ func newEventFromUntrustedJSONV3
-//@   property C04
+//@   property C04, C18:safety
+//@   ensures C18.room-id-parses: (err == nil && !called(NewEventFromTrustedJSON)) ==> (isCreateFields(ev.(*eventV3).eventFields) || (roomParses(ev.(*eventV3).eventFields.RoomID) && len(ev.(*eventV3).eventFields.RoomID) >= 4))
 //@   results ev, err
 //@   requires roomVersion != nil
 //@   loop 1: invariant 0 <= idx(1) && idx(1) <= 5 && str(eventJSON) == stripN(old(str(eventJSON)), idx(1))
@@ -1563,19 +1566,187 @@ package gomatrixserverlib
 
 // the trusted parsers: every field comes from the given JSON; the bookkeeping fields from the arguments
 //@ func newEventFromTrustedJSONV1
-//@   property C04
+//@   property C04, C18:safety
+//@   ensures C18.room-id-parses: err == nil ==> (roomParses(ev.(*eventV1).eventFields.RoomID) && len(ev.(*eventV1).eventFields.RoomID) >= 4)
 //@   results ev, err
 //@   requires roomVersion != nil
 //@   ensures fields: err == nil ==> (isType(ev, "*eventV1") && fresh(ev.(*eventV1)) && *ev.(*eventV1) == setfield(setfield(setfield(jmerge(zero("eventV1"), eventJSON), "eventJSON", eventJSON), "redacted", redacted), "roomVersion", roomVersion.Version()))
 
 //@ func newEventFromTrustedJSONV2
-//@   property C04
+//@   property C04, C18:safety
+//@   ensures C18.room-id-parses: err == nil ==> (roomParses(ev.(*eventV2).eventFields.RoomID) && len(ev.(*eventV2).eventFields.RoomID) >= 4)
 //@   results ev, err
 //@   requires roomVersion != nil
 //@   ensures fields: err == nil ==> (isType(ev, "*eventV2") && fresh(ev.(*eventV2)) && *ev.(*eventV2) == setfield(jmerge(zero("eventV2"), eventJSON), "eventV1", setfield(setfield(setfield(jmerge(zero("eventV2"), eventJSON).eventV1, "eventJSON", eventJSON), "redacted", redacted), "roomVersion", roomVersion.Version())))
 
 //@ func newEventFromTrustedJSONV3
-//@   property C04
+//@   property C04, C18:safety
+//@   ensures C18.room-id-parses: err == nil ==> (isCreateFields(ev.(*eventV3).eventFields) || (roomParses(ev.(*eventV3).eventFields.RoomID) && len(ev.(*eventV3).eventFields.RoomID) >= 4))
 //@   results ev, err
 //@   requires roomVersion != nil
 //@   ensures fields: err == nil ==> (isType(ev, "*eventV3") && fresh(ev.(*eventV3)) && ev.(*eventV3).eventV2 == setfield(jmerge(zero("eventV3"), eventJSON).eventV2, "eventV1", setfield(setfield(setfield(jmerge(zero("eventV3"), eventJSON).eventV2.eventV1, "eventJSON", eventJSON), "redacted", redacted), "roomVersion", roomVersion.Version())))
+
+// ---------------------------------------------------------------- C18: no panics
+// Accessors of parsed events: safe for every non-nil receiver (thin contracts: the engine generates the
+// nil / index / slice / assertion / panic obligations; there is nothing else to state).
+//@ func (*eventV1).AuthEventIDs
+//@   property C18:safety
+//@   inline
+//@   requires e != nil
+
+//@ func (*eventV1).Content
+//@   property C18:safety
+//@   inline
+//@   requires e != nil
+
+//@ func (*eventV1).Depth
+//@   property C18:safety
+//@   inline
+//@   requires e != nil
+
+//@ func (*eventV1).EventID
+//@   property C18:safety
+//@   inline
+//@   requires e != nil
+
+//@ func (*eventV1).HistoryVisibility
+//@   property C18:safety
+//@   inline
+//@   requires e != nil
+
+//@ func (*eventV1).IsSticky
+//@   property C18:safety
+//@   inline
+//@   requires e != nil
+
+//@ func (*eventV1).JSON
+//@   property C18:safety
+//@   inline
+//@   requires e != nil
+
+//@ func (*eventV1).JoinRule
+//@   property C18:safety
+//@   inline
+//@   requires e != nil
+
+//@ func (*eventV1).Membership
+//@   property C18:safety
+//@   inline
+//@   requires e != nil
+
+//@ func (*eventV1).OriginServerTS
+//@   property C18:safety
+//@   inline
+//@   requires e != nil
+
+//@ func (*eventV1).PowerLevels
+//@   property C18:safety
+//@   inline
+//@   requires e != nil
+
+//@ func (*eventV1).PrevEventIDs
+//@   property C18:safety
+//@   inline
+//@   requires e != nil
+
+//@ func (*eventV1).Redacted
+//@   property C18:safety
+//@   inline
+//@   requires e != nil
+
+//@ func (*eventV1).Redacts
+//@   property C18:safety
+//@   inline
+//@   requires e != nil
+
+//@ func (*eventV1).SenderID
+//@   property C18:safety
+//@   inline
+//@   requires e != nil
+
+//@ func (*eventV1).StateKey
+//@   property C18:safety
+//@   inline
+//@   requires e != nil
+
+//@ func (*eventV1).StateKeyEquals
+//@   property C18:safety
+//@   inline
+//@   requires e != nil
+
+//@ func (*eventV1).StickyEndTime
+//@   property C18:safety
+//@   inline
+//@   requires e != nil
+
+//@ func (*eventV1).Type
+//@   property C18:safety
+//@   inline
+//@   requires e != nil
+
+//@ func (*eventV1).Unsigned
+//@   property C18:safety
+//@   inline
+//@   requires e != nil
+
+//@ func (*eventV1).Version
+//@   property C18:safety
+//@   inline
+//@   requires e != nil
+
+//@ func (*eventV1).assumedStickyStartTime
+//@   property C18:safety
+//@   inline
+//@   requires e != nil
+
+//@ func (*eventV1).calculatedStickyEndTime
+//@   property C18:safety
+//@   inline
+//@   requires e != nil
+
+//@ func (*eventV2).AuthEventIDs
+//@   property C18:safety
+//@   inline
+//@   requires e != nil
+
+//@ func (*eventV2).MarshalJSON
+//@   property C18:safety
+//@   inline
+//@   requires e != nil
+
+//@ func (*eventV2).PrevEventIDs
+//@   property C18:safety
+//@   inline
+//@   requires e != nil
+
+//@ func (*eventV2).SenderID
+//@   property C18:safety
+//@   inline
+//@   requires e != nil
+
+// RoomID() parses the stored room ID again and panics when that fails: every parser checks it (F11/F12 fix),
+// so the parsers' postcondition is these accessors' precondition.
+//@ func (*eventV1).RoomID
+//@   property C18:safety
+//@   requires e != nil && roomParses(e.eventFields.RoomID)
+
+//@ func (*eventV3).AuthEventIDs
+//@   property C18:safety
+//@   requires e != nil && (isCreateFields(e.eventFields) || len(e.eventFields.RoomID) >= 1)
+
+// for the create event of a v12 room the room ID is derived from the event ID, which must have the hash form
+//@ func (*eventV3).RoomID
+//@   property C18:safety
+//@   requires e != nil && (isCreateFields(e.eventFields) ? (len(e.EventIDRaw) >= 1 && roomParses("!" + substr(e.EventIDRaw, 1, len(e.EventIDRaw)))) : roomParses(e.eventFields.RoomID))
+
+// EventID() of formats 2 and 3 hashes the redacted event on first use and panics when redaction fails (F13)
+//@ func (*eventV2).EventID
+//@   property C18:safety
+//@   requires e != nil
+//@   ensures cached: old(e.EventIDRaw) != "" ==> result == old(e.EventIDRaw)
+//@   assigns e.EventIDRaw
+
+// referenceOfEvent (redact, strip, hash, encode) is C03's subject; assumed not to panic (sha256 / base64 are outside the subset)
+//@ func referenceOfEvent
+//@   trusted
+//@   assigns nothing
